@@ -1,7 +1,7 @@
 (* C04 — refinement: the world of Parameter objects, locations and caches (M_Params.v) behaves, under
    every operation, exactly like the value-level specification interpreter of S_Params.v. *)
 From Coq Require Import ZArith List Bool Lia Permutation.
-From Sky Require Import Result PyList G_params M_Params S_Params P_Params P_ParamsWorld P_ParamsArgs.
+From Sky Require Import Result PyList G_params M_Params S_Params P_Params P_ParamsViews P_ParamsWorld P_ParamsMap P_ParamsArgs.
 Import ListNotations.
 Open Scope Z_scope.
 
@@ -319,11 +319,50 @@ Proof.
   destruct (Nat.eqb (length (mp_names m)) (length l0)); reflexivity.
 Qed.
 
+(* the independent reading of map_param's column is what the numpy plumbing computes *)
+Lemma dup_scan_eq rows names applied : forall cnt k,
+  dup_check rows names
+    (mask_select (map Z.of_nat (seq k cnt)) (map (fun midx => mem midx applied) (map Z.of_nat (seq k cnt))))
+  = s_dup_scan rows names applied k cnt.
+Proof.
+  induction cnt as [|cnt IH]; intros k; [reflexivity|].
+  cbn [seq map mask_select s_dup_scan]. destruct (mem (Z.of_nat k) applied); [|apply IH].
+  cbn [dup_check]. rewrite !py_get_nat. destruct (nth_error rows k) as [row|]; cbn [bind]; [|reflexivity].
+  destruct (nth_error names k) as [a|]; cbn [bind]; [|reflexivity].
+  destruct (mem a (somes row)); [reflexivity | apply IH].
+Qed.
+
+Lemma combine_map_l {A B C} (f : A -> B) : forall (l : list A) (r : list C),
+  combine (map f l) r = map (fun xy => (f (fst xy), snd xy)) (combine l r).
+Proof. induction l as [|a l IH]; intros [|c r]; cbn; try reflexivity. f_equal. apply IH. Qed.
+
+Lemma column_eq n names applied :
+  where_entry (map (fun midx => mem midx applied) (arange n)) names = s_column n names applied.
+Proof.
+  unfold where_entry, s_column, arange. rewrite !map_length, seq_length.
+  destruct (Nat.eqb (length names) n).
+  - f_equal. rewrite map_map, combine_map_l, map_map. reflexivity.
+  - destruct names as [|a [|? ?]]; try reflexivity. rewrite !map_map. reflexivity.
+Qed.
+
+Lemma s_map_rows_eq n rows pname models al : s_map_rows n rows pname models al = map_rows n rows pname models al.
+Proof.
+  unfold s_map_rows, map_rows. fold (arange n).
+  set (applied := match models with Some ms => ms | None => arange n end).
+  destruct applied as [|x xs] eqn:Ea; [reflexivity|]. cbn [length Nat.eqb]. rewrite <- Ea.
+  assert (Ed : dup_check rows (match al with ANone => repeat pname n | AStr a => repeat a n | ASeq ls => ls end)
+                 (mask_select (arange n) (map (fun midx => mem midx applied) (arange n)))
+               = s_dup_scan rows (match al with ANone => repeat pname n | AStr a => repeat a n | ASeq ls => ls end) applied 0 n)
+    by (unfold arange; apply dup_scan_eq).
+  rewrite Ed. destruct (s_dup_scan _ _ _ _ _); cbn [bind]; [|reflexivity].
+  rewrite column_eq. reflexivity.
+Qed.
+
 Lemma refine_map w d models al : WorldOk w -> refines w (OMap d models al).
 Proof.
   intros HW. unfold refines. cbn [step s_step]. rewrite s_param_new_eq.
   destruct (param_new d) as [p|e] eqn:Hd; [|split; reflexivity].
-  rewrite map_param_factor.
+  rewrite s_map_rows_eq. rewrite map_param_factor.
   change (a_src (abs w)) with (mp_src (w_map w)). change (a_names (abs w)) with (mp_names (w_map w)).
   change (a_g (abs w)) with (abs_set (w_store w) (mp_gps (w_map w))). change (a_sets (abs w)) with (map (abs_set (w_store w)) (w_sets w)).
   destruct (map_rows (length (mp_src (w_map w))) (mp_names (w_map w)) (p_name p) models al) as [rows|e];
